@@ -89,7 +89,7 @@ def advance (cfg : Cfg Nat) (rules : List (Rule Nat)) : Nat → MSt Nat → Nat 
       else stepM cfg rules m (.tick t)
     | none => stepM cfg rules m (.tick t)
 
-/-- "rules": [[trigger|null, prio|null, value|null, budget], …] -/
+/-- "rules": [[trigger|null, prio|null, value|null, budget(, raises)], …] -/
 def mkRules (j : Json) : R (List (Rule Nat) × List Nat) := do
   match fldOpt j "rules" with
   | none => pure ([], [])
@@ -99,11 +99,12 @@ def mkRules (j : Json) : R (List (Rule Nat) × List Nat) := do
     let mut left : List Nat := []
     for r in arr do
       let a ← r.getArr?
-      if a.size != 4 then throw "bad rule"
+      if a.size != 4 && a.size != 5 then throw "bad rule"
+      let raises := if a.size == 5 then (match a[4]! with | Json.bool b => b | _ => false) else false
       let trg ← match a[0]! with | Json.null => pure none | x => do pure (some (← x.getNat?))
       let pr ← match a[1]! with | Json.null => pure none | x => do pure (some (← x.getInt?))
       let v ← match a[2]! with | Json.null => pure none | x => do pure (some (← x.getNat?))
-      rules := rules ++ [{ trigger := trg, prio := pr, value := v }]
+      rules := rules ++ [{ trigger := trg, prio := pr, value := v, raises := raises }]
       left := left ++ [← a[3]!.getNat?]
     pure (rules, left)
 
